@@ -462,7 +462,7 @@ def nextResStr (c : Case) : NextRes → String
   | .diverge => "DIVERGE"
 
 def apiAnswer (ca cb : Case) (src : List Nat) (isPrefix : Bool) (ops : List ApiOp) : String :=
-  let env : ApiEnv := { gA := ca.graph, gB := cb.graph, cbA := ca.cb, cbB := cb.cb, src := src, isPrefix := isPrefix }
+  let env : ApiEnv := { gA := ca.graph, gB := cb.graph, cbA := ca.cb, cbB := cb.cb, src := src, isPrefix := isPrefix, utf8 := ca.utf8 }
   let rec go (pool : List LexSt) (ops : List ApiOp) (acc : List String) : List String :=
     match ops with
     | [] => acc.reverse
